@@ -63,13 +63,32 @@ class TVCheck:
             return True
         if r.status in self.bad_statuses:
             return True
-        if r.status == "raised" and self.raised_is_violation:
-            return True
+        if r.status == "raised" and self.raised_is_violation and "optional" not in r.prog.tags:
+            return True      # ('optional': a construct the documentation does not promise - refusing it is fine, accepting it wrongly is not)
         return False
 
     def work(self, prog):
         r = self.an.analyse(prog)
         if self.has_problem(r):
+            # findings identified by the exact failing input (regex over the query source) and the obligations / status they
+            # explain: anything else that is wrong with the same program is still reported
+            import re as _re
+            src = prog.src or prog.query
+            for f in self.findings:
+                if f.get("status") != "known" or not f.get("src_regex") or not _re.search(f["src_regex"], src):
+                    continue
+                if f.get("backends") and prog.backend not in f["backends"]:
+                    continue
+                explained = set(f.get("obligations", []))
+                kinds = {v["obligation"].split(":")[0] for v in r.violations}
+                if r.status in self.bad_statuses:
+                    kinds.add("status:" + r.status)
+                if r.status in self.bad_statuses and f.get("detail_regex") and not _re.search(f["detail_regex"], r.detail or ""):
+                    continue
+                if kinds and kinds <= explained:
+                    s = summarize(r, kf_ids=[f["id"]])
+                    s["attributed"] = True
+                    return s
             app = kfmod.applicable(self.findings, prog)
             if app and "must_raise" in prog.tags and not any(f.get("patch") for f in app):
                 # finding identified purely by its failing inputs (predicate): nothing to re-discharge
@@ -154,11 +173,14 @@ class TVCheck:
         elif s["status"] in self.bad_statuses:
             d = self.write_simple_bundle(s)
             rep.violation(f"package not well-formed ({s['status']}): {s['detail']} || {tag}", d)
-        elif s["status"] == "raised" and self.raised_is_violation:
+        elif s["status"] == "raised" and self.raised_is_violation and "optional" not in s["tags"]:
             d = self.write_simple_bundle(s)
             rep.violation(f"query of the documented fragment was not accepted: {s['detail']} || {tag}", d)
         elif s["status"] in ("illformed", "illtyped", "frontend"):
             rep.inconc(tag, f"package not well-formed ({s['status']}: {s['detail'][:200]}) - reported by C02, no row semantics here")
+        elif s["status"] == "raised" and "optional" in s["tags"]:
+            rep.obligations += 1
+            rep.discharged += 1          # refusing an undocumented construct is an acceptable outcome
         elif s["status"] == "raised":
             rep.inconc(tag, f"translator raised: {s['detail'][:200]}")
 
